@@ -24,7 +24,15 @@ theorem C15_gen_facts :
     ElaVerif.Gen.C15.txCacheCallsDisconnect =
       [("deleteTxn", ["range block.Transactions"]), ("deleteTxn", ["range unspents", "len(value) == 0"])] ∧
     ElaVerif.Gen.C15.txCacheCallsFetch = ["GetTxn"] ∧
-    ElaVerif.Gen.C15.blockCacheInvalidations = 0 := by decide
+    ElaVerif.Gen.C15.blockCacheInvalidations = 0 ∧
+    -- eviction is decided by the length of the FIFO of hashes (not of the map): what `C15_block_race` and
+    -- `C15_send_shape` rely on
+    ElaVerif.Gen.C15.blockCacheEvictCond = "len(c.blockHashesCache) >= BlocksCacheSize" ∧
+    ElaVerif.Gen.C15.sendCacheEvictCond = "len(blockHashesCache) >= BlocksCacheSize" ∧
+    -- `MemoryFirst` alone switches every TxCache operation off; the input-count guard is separate
+    ElaVerif.Gen.C15.setTxnGuards = ["t.params.MemoryFirst", "len(txn.Inputs()) > MaxCacheInputsCountPerTransaction"] ∧
+    ElaVerif.Gen.C15.deleteTxnGuards = ["t.params.MemoryFirst"] ∧
+    ElaVerif.Gen.C15.trimGuards = ["t.params.MemoryFirst"] := by decide
 
 /-! ## A. UTXOCache: reference cache and tx cache -/
 
@@ -145,49 +153,73 @@ example : (getTxReference [(1, [50, 60]), (2, [70])] [] (Utxo.empty 2) [⟨1, 1,
 theorem C15_idx_transparent (db : IdxDb) (s : Idx) (h : IdxInv db s) (k : Nat) : s.fetch db k = db.lookup k := by
   unfold Idx.fetch
   split
-  · rename_i v hl; exact (h k v hl).symm
+  · rename_i v hl; exact (h.1 k v hl).symm
   · rfl
+
+/-- with `MemoryFirst` nothing is ever cached -/
+theorem C15_idx_memory_first (s : Idx) (hm : s.memoryFirst = true) (c : Bool) (k height tx : Nat)
+    (victims : List Nat) : s.set c k height tx = s ∧ s.delete k = s ∧ s.trim victims = s := by
+  simp [Idx.set, Idx.delete, Idx.trim, hm]
 
 /-- connecting one transaction that is new to the index (cached or not) -/
 theorem C15_idx_connect_tx (db : IdxDb) (s : Idx) (height : Nat) (t : Nat × Nat × Bool) (h : IdxInv db s)
     (hnew : db.lookup t.1 = none) :
     IdxInv (Idx.connectTx height (db, s) t).1 (Idx.connectTx height (db, s) t).2 := by
+  have hk0 : ∀ k v, s.txns.lookup k = some v → k ≠ t.1 := by
+    intro k v hl e; subst e
+    have := h.1 _ v hl
+    rw [hnew] at this; cases this
   unfold Idx.connectTx Idx.set
-  intro k v hl
-  simp only at hl ⊢
-  rw [lookup_setKey]
-  split at hl
-  · simp only at hl
-    rw [lookup_setKey] at hl
-    split at hl
-    · rename_i hk; simp [hk, hl]
-    · rename_i hk; simp only [hk, ↓reduceIte]; exact h k v hl
-  · have hk : k ≠ t.1 := by
-      intro e; subst e
-      have := h _ v hl
-      rw [hnew] at this; cases this
-    simp only [hk, ↓reduceIte]; exact h k v hl
+  simp only
+  by_cases hm : s.memoryFirst = true
+  · simp only [hm, ↓reduceIte]
+    refine ⟨?_, h.2⟩
+    intro k v hl
+    rw [lookup_setKey]; simp only [hk0 k v hl, ↓reduceIte]; exact h.1 k v hl
+  · simp only [hm, Bool.false_eq_true, ↓reduceIte]
+    by_cases hc : t.2.2 = true
+    · simp only [hc, ↓reduceIte]
+      refine ⟨?_, fun e => by cases e⟩
+      intro k v hl
+      rw [lookup_setKey] at hl ⊢
+      by_cases hk : k = t.1
+      · simp only [hk, ↓reduceIte] at hl ⊢; exact hl
+      · simp only [hk, ↓reduceIte] at hl ⊢; exact h.1 k v hl
+    · simp only [hc, Bool.false_eq_true, ↓reduceIte]
+      refine ⟨?_, h.2⟩
+      intro k v hl
+      rw [lookup_setKey]; simp only [hk0 k v hl, ↓reduceIte]; exact h.1 k v hl
 
 theorem C15_idx_delete (db : IdxDb) (s : Idx) (k : Nat) (h : IdxInv db s) :
     IdxInv db (s.delete k) ∧ IdxInv (dropKey db k) (s.delete k) := by
   unfold Idx.delete
-  refine ⟨?_, ?_⟩
-  · intro k' v hl
-    exact h k' v (lookup_of_dropKey hl).1
-  · intro k' v hl
-    obtain ⟨h1, h2⟩ := lookup_of_dropKey hl
-    rw [lookup_dropKey]; simp only [h2, ↓reduceIte]; exact h k' v h1
+  by_cases hm : s.memoryFirst = true
+  · simp only [hm, ↓reduceIte]
+    refine ⟨h, ?_, h.2⟩
+    intro k' v hl
+    rw [h.2 hm] at hl; simp at hl
+  · simp only [hm, Bool.false_eq_true, ↓reduceIte]
+    refine ⟨⟨?_, fun e => by cases e⟩, ⟨?_, fun e => by cases e⟩⟩
+    · intro k' v hl
+      exact h.1 k' v (lookup_of_dropKey hl).1
+    · intro k' v hl
+      obtain ⟨h1, h2⟩ := lookup_of_dropKey hl
+      rw [lookup_dropKey]; simp only [h2, ↓reduceIte]; exact h.1 k' v h1
 
 /-- `trim` with any victims keeps the cache consistent and leaves at most
     `TxCacheVolume + TrimmingInterval` entries -/
 theorem C15_idx_trim (db : IdxDb) (s : Idx) (victims : List Nat) (h : IdxInv db s) :
     IdxInv db (s.trim victims) ∧ (s.trim victims).txns.length ≤ s.volume + s.interval := by
   unfold Idx.trim
-  split
-  · refine ⟨fun k v hl => h k v (evictTo_lookup _ _ _ _ _ _ hl), ?_⟩
-    have := evictTo_length (s.volume - 1) s.txns.length victims s.txns (by omega)
-    simp only; omega
-  · exact ⟨h, by omega⟩
+  by_cases hm : s.memoryFirst = true
+  · simp only [hm, ↓reduceIte]
+    exact ⟨h, by rw [h.2 hm]; simp⟩
+  · simp only [hm, Bool.false_eq_true, ↓reduceIte]
+    split
+    · refine ⟨⟨fun k v hl => h.1 k v (evictTo_lookup _ _ _ _ _ _ hl), fun e => by cases e⟩, ?_⟩
+      have := evictTo_length (s.volume - 1) s.txns.length victims s.txns (by omega)
+      simp only; omega
+    · exact ⟨h, by omega⟩
 
 /-- `DisconnectBlock`: the block's transactions leave the index and the cache together -/
 theorem C15_idx_disconnect (db : IdxDb) (s : Idx) (hashes : List Nat) (h : IdxInv db s) :
@@ -231,8 +263,8 @@ theorem C15_idx_connect (db : IdxDb) (s : Idx) (victims : List Nat) (height : Na
   | nil => exact h1
   | cons k ks ih => exact ih (st.1, st.2.delete k) (C15_idx_delete st.1 st.2 k h1).1
 
-example : (Idx.connect [] ⟨[], 1, 1⟩ [] 5 [(10, 100, true), (11, 101, false)] []).2.fetch
-    (Idx.connect [] ⟨[], 1, 1⟩ [] 5 [(10, 100, true), (11, 101, false)] []).1 11 = some (5, 101) := by decide
+example : (Idx.connect [] ⟨[], 1, 1, false⟩ [] 5 [(10, 100, true), (11, 101, false)] []).2.fetch
+    (Idx.connect [] ⟨[], 1, 1, false⟩ [] 5 [(10, 100, true), (11, 101, false)] []).1 11 = some (5, 101) := by decide
 
 /-- the real `UnspentIndex.ConnectBlock` (as modelled by `UIdx.connectBlock`: which transactions become
     fully spent is computed from the unspent bucket) keeps the cache consistent with the tx index -/
@@ -258,26 +290,36 @@ theorem C15_uidx_disconnect_block (u : UIdx) (txs : List BTx) (h : IdxInv u.txdb
   intro t ht
   unfold Idx.disconnect
   simp only
-  have key : ∀ (hs : List Nat) (s : Idx) (k : Nat), (k ∈ hs ∨ s.txns.lookup k = none) →
-      (hs.foldl Idx.delete s).txns.lookup k = none := by
+  have key : ∀ (hs : List Nat) (s : Idx) (k : Nat), (s.memoryFirst = true → s.txns = []) →
+      (k ∈ hs ∨ s.txns.lookup k = none) → (hs.foldl Idx.delete s).txns.lookup k = none := by
     intro hs
     induction hs with
-    | nil => intro s k hk; rcases hk with hk | hk; cases hk; exact hk
+    | nil =>
+      intro s k _ hk
+      rcases hk with hk | hk
+      · cases hk
+      · exact hk
     | cons a hs ih =>
-      intro s k hk
+      intro s k hmf hk
       simp only [List.foldl_cons]
-      apply ih
-      by_cases hka : k = a
-      · right; subst hka; unfold Idx.delete; simp only; rw [lookup_dropKey]; simp
-      · rcases hk with hk | hk
-        · rcases List.mem_cons.1 hk with e | e
-          · exact absurd e hka
-          · exact Or.inl e
-        · right; unfold Idx.delete; simp only; rw [lookup_dropKey]; simp [hka, hk]
-  exact key _ _ _ (Or.inl (List.mem_map.2 ⟨t, ht, rfl⟩))
+      by_cases hm : s.memoryFirst = true
+      · have e : s.delete a = s := by simp [Idx.delete, hm]
+        rw [e]
+        exact ih s k hmf (Or.inr (by rw [hmf hm]; rfl))
+      · have e : s.delete a = { s with txns := dropKey s.txns a } := by simp [Idx.delete, hm]
+        rw [e]
+        apply ih { s with txns := dropKey s.txns a } k (fun e' => absurd e' hm)
+        by_cases hka : k = a
+        · right; subst hka; simp only; rw [lookup_dropKey]; simp
+        · rcases hk with hk | hk
+          · rcases List.mem_cons.1 hk with e' | e'
+            · exact absurd e' hka
+            · exact Or.inl e'
+          · right; simp only; rw [lookup_dropKey]; simp [hka, hk]
+  exact key _ _ _ h.2 (Or.inl (List.mem_map.2 ⟨t, ht, rfl⟩))
 
 /-- a transaction without outputs is cached by connect and gone after disconnect -/
-example : let u : UIdx := ⟨[], [], ⟨[], 5, 10000⟩⟩
+example : let u : UIdx := ⟨[], [], ⟨[], 5, 10000, false⟩⟩
     let b : List BTx := [⟨1, 2, true, true, []⟩, ⟨2, 0, true, false, []⟩]
     ((u.connectBlock [] 7 b).cache.txns.lookup 2 = some (7, 2)) ∧
     ((u.connectBlock [] 7 b).disconnectBlock b).cache.txns.lookup 2 = none := by decide
@@ -286,8 +328,8 @@ example : let u : UIdx := ⟨[], [], ⟨[], 5, 10000⟩⟩
 
 /-- **Transparent and bounded**: `GetBlock` answers like the block store, keeps at most
     `BlocksCacheSize` hashes in the FIFO, and every cached block is in the FIFO. -/
-theorem C15_block_transparent (db : BlockDb) (s : BlockCache) (k : Nat) (h : BlockInv db s) :
-    (getBlock db s k).1 = db.lookup k ∧ BlockInv db (getBlock db s k).2 := by
+theorem C15_block_insert (db : BlockDb) (s : BlockCache) (k b : Nat) (h : BlockInv db s)
+    (hdb : db.lookup k = some b) : BlockInv db (s.insert k b) := by
   have hev : (∀ k b, s.evict.map.lookup k = some b → db.lookup k = some b) ∧ s.evict.fifo.length + 1 ≤ cacheSize ∧
       (∀ k b, s.evict.map.lookup k = some b → k ∈ s.evict.fifo) := by
     have hf := h.fifo
@@ -295,7 +337,7 @@ theorem C15_block_transparent (db : BlockDb) (s : BlockCache) (k : Nat) (h : Blo
     unfold cacheSize at hf ⊢
     split
     · rename_i hge
-      -- the FIFO is exactly two long
+      -- the FIFO is exactly two long (possibly the same hash twice, after a double miss)
       match hfifo : s.fifo with
       | [] => simp [hfifo] at hge
       | [a] => simp [hfifo] at hge
@@ -312,29 +354,51 @@ theorem C15_block_transparent (db : BlockDb) (s : BlockCache) (k : Nat) (h : Blo
         · simp [e]
       | a :: c :: d :: rest => simp [hfifo] at hf
     · exact ⟨h.val, by omega, h.sync⟩
+  obtain ⟨v1, v2, v3⟩ := hev
+  unfold BlockCache.insert
+  generalize s.evict = s1 at v1 v2 v3
+  refine ⟨?_, ?_, ?_⟩
+  · intro k' b' hl
+    simp only at hl
+    rw [lookup_setKey] at hl
+    split at hl
+    · rename_i e; subst e; cases hl; exact hdb
+    · exact v1 k' b' hl
+  · simp only [List.length_append, List.length_singleton]; exact v2
+  · intro k' b' hl
+    simp only at hl ⊢
+    rw [lookup_setKey] at hl
+    split at hl
+    · rename_i e; subst e; simp
+    · exact List.mem_append.2 (Or.inl (v3 k' b' hl))
+
+theorem C15_block_transparent (db : BlockDb) (s : BlockCache) (k : Nat) (h : BlockInv db s) :
+    (getBlock db s k).1 = db.lookup k ∧ BlockInv db (getBlock db s k).2 := by
   unfold getBlock
   split
   · rename_i b hl; exact ⟨(h.val k b hl).symm, h⟩
   · split
     · rename_i hdb; exact ⟨hdb.symm, h⟩
     · rename_i b hdb
-      refine ⟨hdb.symm, ?_⟩
-      obtain ⟨v1, v2, v3⟩ := hev
-      generalize s.evict = s1 at v1 v2 v3
-      refine ⟨?_, ?_, ?_⟩
-      · intro k' b' hl
-        simp only at hl
-        rw [lookup_setKey] at hl
-        split at hl
-        · rename_i e; subst e; cases hl; exact hdb
-        · exact v1 k' b' hl
-      · simp only [List.length_append, List.length_singleton]; exact v2
-      · intro k' b' hl
-        simp only at hl ⊢
-        rw [lookup_setKey] at hl
-        split at hl
-        · rename_i e; subst e; simp
-        · exact List.mem_append.2 (Or.inl (v3 k' b' hl))
+      exact ⟨hdb.symm, C15_block_insert db s k b h hdb⟩
+
+/-- two concurrent misses for one hash (both callers insert, the hash is queued twice): still the
+    store's answer, still at most `BlocksCacheSize` queued hashes, every cached block still queued —
+    because eviction is decided by the *queue* length. -/
+theorem C15_block_race (db : BlockDb) (s : BlockCache) (k : Nat) (h : BlockInv db s) :
+    (getBlockRace db s k).1 = db.lookup k ∧ BlockInv db (getBlockRace db s k).2 := by
+  unfold getBlockRace
+  split
+  · rename_i b hl; exact ⟨(h.val k b hl).symm, h⟩
+  · split
+    · rename_i hdb; exact ⟨hdb.symm, h⟩
+    · rename_i b hdb
+      exact ⟨hdb.symm, C15_block_insert db _ k b (C15_block_insert db s k b h hdb) hdb⟩
+
+/-- all histories of (possibly racing) lookups and stores keep at most two distinct blocks cached -/
+example : (getBlockRace [(1, 10), (2, 20), (3, 30)] ⟨[], []⟩ 1).2.fifo = [1, 1] ∧
+    ((getBlock [(1, 10), (2, 20), (3, 30)] (getBlock [(1, 10), (2, 20), (3, 30)]
+      (getBlockRace [(1, 10), (2, 20), (3, 30)] ⟨[], []⟩ 1).2 2).2 3).2.map.map (·.1)) = [3, 2] := by decide
 
 /-- store mutation: blocks are written once, so storing never invalidates the cache (the cache
     has no invalidation and needs none — `C15_gen_facts`: 0 invalidation sites) -/
